@@ -593,3 +593,219 @@ Proof.
         apply zget_zdel.
       * intros i. rewrite Bool.andb_false_r. subst st4. fields. rewrite Fh. reflexivity.
 Qed.
+
+Lemma mx_del_inv : forall st id fd r cl,
+  inv st -> zget (m_heap st) id = Some (mkConn fd (mkGfd r cl fd)) -> cell st r cl = Some id ->
+  exists st', mx_del ROW COL st id = Ret st' /\ inv st' /\
+    (forall fd', mx_get st' fd' = if fd' =? fd then None else mx_get st fd') /\
+    population COL st' = population COL st - 1.
+Proof.
+  intros st id fd r cl I Hh Hc.
+  pose proof (cell_some_live _ _ _ _ I Hc) as (Hr0 & Hcl & Hplt).
+  pose proof (inv_next _ _ _ I) as (Hrow & Hcol & Hfull).
+  set (lr := if m_col st =? 0 then m_row st - 1 else m_row st).
+  set (lc := if m_col st =? 0 then COL - 1 else m_col st - 1).
+  assert (HL : (0 < m_col st /\ lr = m_row st /\ lc = m_col st - 1) \/
+               (m_col st = 0 /\ lr = m_row st - 1 /\ lc = COL - 1)) by (subst lr lc; dif; lia).
+  destruct (live_cell_some st lr lc I) as (idL & HcL); [unfold plt in *; lia..|].
+  destruct (inv_cell _ _ _ I _ _ _ HcL) as (fdL & HhL & HfL).
+  destruct (inv_cell _ _ _ I _ _ _ Hc) as (fd0 & Hh0 & Hf). rewrite Hh in Hh0. inversion Hh0; subst fd0. clear Hh0.
+  destruct (mx_del_exec st id fd r cl lr lc idL fdL I Hh Hc HL HcL HhL) as (st' & E & P).
+  exists st'. split; [exact E|].
+  destruct P as (Pdc & Prow & Pcol & Pcnt & Pnil & Pcell & Pf & Ph).
+  clearbody lr lc.
+  pose proof (cell_some_live _ _ _ _ I HcL) as (Hlr0 & Hlc & HpltL).
+  set (row := m_row st) in *. set (col := m_col st) in *.
+  assert (HDL : plt r cl lr lc \/ (r = lr /\ cl = lc)) by (unfold plt in *; lia).
+  set (moved := negb ((r =? lr) && (cl =? lc))) in *.
+  assert (Hsame : moved = false -> id = idL /\ fd = fdL).
+  { intros M. assert (r = lr /\ cl = lc) as (-> & ->) by (subst moved; lia).
+    assert (id = idL) by congruence. subst idL. split; [reflexivity|congruence]. }
+  assert (Hdiff : moved = true -> id <> idL /\ fd <> fdL).
+  { intros M. assert (~ (r = lr /\ cl = lc)) as N by (subst moved; lia). split; intro; subst.
+    - rewrite Hh in HhL. inversion HhL. lia.
+    - rewrite Hf in HfL. inversion HfL. lia. }
+  (* positions other than D and L keep their connection *)
+  assert (Hother : forall x y i, cell st x y = Some i -> ~ (x = r /\ y = cl) -> ~ (x = lr /\ y = lc) ->
+            i <> id /\ i <> idL).
+  { intros x y i Hi N1 N2. split; intro; subst i.
+    - destruct (inv_cell _ _ _ I _ _ _ Hi) as (f & Hf' & _). rewrite Hh in Hf'. inversion Hf'. lia.
+    - destruct (inv_cell _ _ _ I _ _ _ Hi) as (f & Hf' & _). rewrite HhL in Hf'. inversion Hf'. lia. }
+  assert (Hfother : forall x g, zget (m_f2g st) x = Some g -> x <> fd -> x <> fdL ->
+            ~ (g_row g = r /\ g_col g = cl) /\ ~ (g_row g = lr /\ g_col g = lc) /\ g_fd g = x /\
+            exists id0, cell st (g_row g) (g_col g) = Some id0 /\
+                        zget (m_heap st) id0 = Some (mkConn x g) /\ id0 <> idL).
+  { intros x g Hg N1 N2. destruct (inv_f2g _ _ _ I _ _ Hg) as (Gfd & id0 & Gc & Gh).
+    assert (A : ~ (g_row g = r /\ g_col g = cl)).
+    { intros (E1 & E2). rewrite E1, E2 in Gc. rewrite Hc in Gc. inversion Gc; subst id0.
+      rewrite Hh in Gh. inversion Gh. congruence. }
+    assert (B : ~ (g_row g = lr /\ g_col g = lc)).
+    { intros (E1 & E2). rewrite E1, E2 in Gc. rewrite HcL in Gc. inversion Gc; subst id0.
+      rewrite HhL in Gh. inversion Gh. congruence. }
+    splits; auto. exists id0. splits; auto. eapply Hother; eauto. }
+  assert (HHL : (0 < col /\ lr = row /\ lc = col - 1) \/ (col = 0 /\ lr = row - 1 /\ lc = COL - 1)) by exact HL.
+  assert (I' : inv st').
+  { constructor.
+    - exact Pdc.
+    - rewrite Prow, Pcol. unfold plt in *. lia.
+    - intros x y. rewrite Pcell, Prow, Pcol.
+      pose proof (inv_live _ _ _ I x y) as Lv. fold row col in Lv.
+      destruct ((x =? lr) && (y =? lc)) eqn:E1.
+      + split; [congruence|]. unfold plt. lia.
+      + destruct ((x =? r) && (y =? cl)) eqn:E2.
+        * split; [intros _|congruence]. unfold plt in *. lia.
+        * rewrite Lv. unfold plt in *. lia.
+    - intros x. rewrite Pcnt, Prow, Pcol, (inv_cnt _ _ _ I). fold row col. unfold cnt_at, plt in *. dif; lia.
+    - intros x. rewrite Pnil, Pcnt. pose proof (inv_nil _ _ _ I x) as Nl.
+      pose proof (inv_cnt _ _ _ I lr) as Cl. fold row col in Cl.
+      assert (1 <= cnt st lr) by (rewrite Cl; unfold cnt_at, plt in *; dif; lia).
+      destruct (Z.eqb_spec x lr) as [->|N]; cbn [andb].
+      + destruct (Z.eqb_spec (cnt st lr) 1) as [E1|E1]; [rewrite E1; lia|]. rewrite Nl. lia.
+      + rewrite Nl. lia.
+    - intros x y i. rewrite Pcell. destruct ((x =? lr) && (y =? lc)) eqn:E1; [discriminate|].
+      destruct ((x =? r) && (y =? cl)) eqn:E2.
+      + intros H. inversion H; subst i. assert (x = r /\ y = cl) as (-> & ->) by lia.
+        assert (M : moved = true) by (subst moved; lia).
+        exists fdL. rewrite Ph, Pf, M, !Z.eqb_refl. auto.
+      + intros H. destruct (Hother x y i H) as (N1 & N2); [lia..|].
+        destruct (inv_cell _ _ _ I _ _ _ H) as (f & Hf1 & Hf2).
+        exists f. rewrite Ph, Pf.
+        replace (i =? idL) with false by lia. cbn [andb].
+        assert (f <> fdL) by (intro; subst f; rewrite HfL in Hf2; inversion Hf2; lia).
+        assert (f <> fd) by (intro; subst f; rewrite Hf in Hf2; inversion Hf2; lia).
+        replace (f =? fdL) with false by lia. replace (f =? fd) with false by lia. auto.
+    - intros x g. rewrite Pf. destruct ((x =? fdL) && moved) eqn:E1.
+      + assert (x = fdL /\ moved = true) as (-> & M) by lia.
+        intros H. inversion H; subst g. cbn. split; [reflexivity|]. exists idL.
+        rewrite Pcell, Ph, M, !Z.eqb_refl. cbn [andb].
+        replace ((r =? lr) && (cl =? lc)) with false by (subst moved; lia). auto.
+      + destruct (Z.eqb_spec x fd) as [->|N]; [discriminate|]. intros H.
+        assert (x <> fdL).
+        { intro; subst x. assert (M : moved = false) by lia. destruct (Hsame M). congruence. }
+        destruct (Hfother x g H N) as (A & B & Gfd & id0 & Gc & Gh & Gn); auto.
+        split; [exact Gfd|]. exists id0. rewrite Pcell, Ph.
+        replace ((g_row g =? lr) && (g_col g =? lc)) with false by lia.
+        replace ((g_row g =? r) && (g_col g =? cl)) with false by lia.
+        replace (id0 =? idL) with false by lia. auto. }
+  splits; auto.
+  - intros fd'. unfold mx_get. rewrite Pf. destruct ((fd' =? fdL) && moved) eqn:E1.
+    + assert (fd' = fdL /\ moved = true) as (-> & M) by lia. destruct (Hdiff M) as (_ & Nf).
+      replace (fdL =? fd) with false by lia. cbn. rewrite Pcell, !Z.eqb_refl. cbn [andb].
+      replace ((r =? lr) && (cl =? lc)) with false by (subst moved; lia).
+      rewrite HfL. cbn. symmetry. exact HcL.
+    + destruct (Z.eqb_spec fd' fd) as [->|N]; [reflexivity|].
+      destruct (zget (m_f2g st) fd') as [g|] eqn:Eg; [|reflexivity].
+      assert (fd' <> fdL).
+      { intro; subst fd'. assert (M : moved = false) by lia. destruct (Hsame M). congruence. }
+      destruct (Hfother fd' g Eg N) as (A & B & _); auto.
+      rewrite Pcell.
+      replace ((g_row g =? lr) && (g_col g =? lc)) with false by lia.
+      replace ((g_row g =? r) && (g_col g =? cl)) with false by lia. reflexivity.
+  - unfold population. rewrite Prow, Pcol. fold row col. nia.
+Qed.
+
+(* ---- loadCount ---- *)
+Lemma load_prefix : forall st, inv st -> forall k : nat,
+  fold_left (fun n r => n + cnt st r) (zseq 0 (Z.of_nat k)) 0 =
+  if Z.of_nat k <=? m_row st then Z.of_nat k * COL else m_row st * COL + m_col st.
+Proof.
+  intros st I. pose proof (inv_next _ _ _ I) as (Hrow & Hcol & _).
+  induction k as [|k IH].
+  - cbn. dif; lia.
+  - rewrite zseq_snoc by lia. rewrite fold_left_app. cbn [fold_left].
+    replace (Z.of_nat (S k) - 1) with (Z.of_nat k) by lia. rewrite IH.
+    rewrite (inv_cnt _ _ _ I). unfold cnt_at. replace (0 + Z.of_nat k) with (Z.of_nat k) by lia.
+    dif; nia.
+Qed.
+
+Lemma mx_load_pop : forall st, inv st -> mx_load ROW st = population COL st.
+Proof.
+  intros st I. unfold mx_load, population. pose proof (inv_next _ _ _ I) as (Hrow & Hcol & Hfull).
+  replace ROW with (Z.of_nat (Z.to_nat ROW)) at 1 by lia. rewrite load_prefix by exact I.
+  rewrite Z2Nat.id by lia. dif; [|reflexivity]. assert (m_row st = ROW) by lia. rewrite Hfull by assumption. lia.
+Qed.
+
+(* ---- iteration ---- *)
+Definition row_ids (st : matst) (r : Z) : list Z := flat_map (fun c => olist (cell st r c)) (zseq 0 COL).
+Definition live_ids (st : matst) : list Z := flat_map (row_ids st) (zseq 0 ROW).
+
+Lemma live_ids_in : forall st id, inv st -> (In id (live_ids st) <-> exists r c, cell st r c = Some id).
+Proof.
+  intros st id I. unfold live_ids, row_ids. rewrite in_flat_map. split.
+  - intros (r & _ & H). apply in_flat_map in H. destruct H as (c & _ & H).
+    exists r, c. destruct (cell st r c); cbn in H; [destruct H as [->|[]]; reflexivity|contradiction].
+  - intros (r & c & H). pose proof (cell_some_live _ _ _ _ I H) as (Hr & Hc & Hp).
+    pose proof (inv_next _ _ _ I) as (Hrow & Hcol & Hfull).
+    exists r. split; [apply zseq_in; unfold plt in *; lia|]. apply in_flat_map.
+    exists c. split; [apply zseq_in; lia|]. rewrite H. cbn. auto.
+Qed.
+
+Lemma live_ids_nodup : forall st, inv st -> NoDup (live_ids st).
+Proof.
+  intros st I. unfold live_ids. apply NoDup_flat_map.
+  - apply zseq_nodup.
+  - intros r _. unfold row_ids. apply NoDup_flat_map.
+    + apply zseq_nodup.
+    + intros c _. destruct (cell st r c); cbn; repeat constructor; auto.
+    + intros c c' b _ _ H H'. destruct (cell st r c) eqn:E; cbn in H; [|contradiction].
+      destruct (cell st r c') eqn:E'; cbn in H'; [|contradiction].
+      destruct H as [->|[]]. destruct H' as [->|[]].
+      destruct (inv_cell _ _ _ I _ _ _ E) as (f & Hf & _).
+      destruct (inv_cell _ _ _ I _ _ _ E') as (f' & Hf' & _). rewrite Hf in Hf'. inversion Hf'. reflexivity.
+  - intros r r' b _ _ H H'. unfold row_ids in *. apply in_flat_map in H, H'.
+    destruct H as (c & _ & H). destruct H' as (c' & _ & H').
+    destruct (cell st r c) eqn:E; cbn in H; [|contradiction].
+    destruct (cell st r' c') eqn:E'; cbn in H'; [|contradiction].
+    destruct H as [->|[]]. destruct H' as [->|[]].
+    destruct (inv_cell _ _ _ I _ _ _ E) as (f & Hf & _).
+    destruct (inv_cell _ _ _ I _ _ _ E') as (f' & Hf' & _). rewrite Hf in Hf'. inversion Hf'. reflexivity.
+Qed.
+
+Lemma keep_going_never : forall n, keep_going (-1) n = true.
+Proof. intros. unfold keep_going. reflexivity. Qed.
+
+(* read-only visitor *)
+Lemma visit_cols_none : forall m k r st, (forall fd, del_pred m k fd = false) ->
+  forall cs vis n,
+  fold_left (mx_visit ROW COL m k (-1) r) cs (Ret (st, vis, n, false)) =
+  Ret (st, rev (flat_map (fun c => olist (cell st r c)) cs) ++ vis,
+       n + Z.of_nat (List.length (flat_map (fun c => olist (cell st r c)) cs)), false).
+Proof.
+  intros m k r st Hp. induction cs as [|c cs IH]; intros vis n.
+  - cbn. f_equal. f_equal. f_equal. lia.
+  - cbn [fold_left flat_map]. unfold mx_visit at 2. destruct (cell st r c) as [id|] eqn:E; cbn [olist app].
+    + rewrite Hp. rewrite keep_going_never. cbn [negb]. rewrite IH. cbn [rev List.length].
+      rewrite <- app_assoc. cbn [app]. f_equal. f_equal. f_equal. lia.
+    + apply IH.
+Qed.
+
+Lemma visit_rows_none : forall m k st snap, (forall fd, del_pred m k fd = false) ->
+  (forall r, zget snap r = None -> row_ids st r = []) ->
+  forall rs vis n,
+  exists n', fold_left (mx_visit_row ROW COL m k (-1) snap) rs (Ret (st, vis, n, false)) =
+  Ret (st, rev (flat_map (row_ids st) rs) ++ vis, n', false).
+Proof.
+  intros m k st snap Hp Hsnap. induction rs as [|r rs IH]; intros vis n.
+  - exists n. reflexivity.
+  - cbn [fold_left flat_map]. unfold mx_visit_row at 2. destruct (zget snap r) eqn:E.
+    + rewrite visit_cols_none by exact Hp. fold (row_ids st r).
+      destruct (IH (rev (row_ids st r) ++ vis) (n + Z.of_nat (List.length (row_ids st r)))) as (n' & ->).
+      exists n'. rewrite rev_app_distr, <- app_assoc. reflexivity.
+    + rewrite (Hsnap r E). cbn [app]. apply IH.
+Qed.
+
+Lemma set_dc_roundtrip : forall st, m_dc st = false -> set_dc (set_dc st true) false = st.
+Proof. intros [dc cs row col t f h] H. cbn in H. subst dc. reflexivity. Qed.
+
+Lemma mx_iterate_none : forall st m k, inv st -> (forall fd, del_pred m k fd = false) ->
+  mx_iterate ROW COL st m k (-1) = Ret (st, live_ids st).
+Proof.
+  intros st m k I Hp. unfold mx_iterate.
+  destruct (visit_rows_none m k (set_dc st true) (m_table (set_dc st true)) Hp) with (rs := zseq 0 ROW) (vis := @nil Z) (n := 0)
+    as (n' & E).
+  { intros r H. unfold row_ids. assert (forall c, cell (set_dc st true) r c = None) as Hc.
+    { intros c. unfold cell. rewrite H. reflexivity. }
+    induction (zseq 0 COL) as [|c cs IH]; cbn; [reflexivity|]. rewrite Hc. exact IH. }
+  rewrite E. rewrite set_dc_roundtrip by (apply (inv_dc _ _ _ I)).
+  rewrite app_nil_r, rev_append_nil, rev_involutive. reflexivity.
+Qed.
